@@ -455,6 +455,38 @@ fn replay_table(sc: &Value) -> usize {
         if twice.is_ok() {
             fail("C18: registering a type twice in a type table is accepted".to_string());
         }
+        let twice = catch_unwind(AssertUnwindSafe(|| match first_un.as_str() {
+            "A" => table.add_type_allow_uninit::<[u16; 3]>(),
+            "B" => table.add_type_allow_uninit::<[u8; 5]>(),
+            _ => table.add_type_allow_uninit::<[u32; 3]>(),
+        }));
+        if twice.is_ok() {
+            fail("C18: registering a type twice in a type table is accepted".to_string());
+        }
+        // the refused registrations must have left the table as it was
+        macro_rules! again {
+            ($t:ty, $un:expr) => {{
+                let host = HostTypeResolver.type_info::<$t>();
+                let ti = catch_unwind(AssertUnwindSafe(|| table.type_info::<$t>()));
+                let dy = catch_unwind(AssertUnwindSafe(|| table.dynamic_type_info(&host.name)));
+                match (ti, dy) {
+                    (Ok(ti), Ok(dy)) => {
+                        if ti != host || dy.info != ti || dy.allow_uninit != $un {
+                            fail(format!("C18: a type table answers differently after a refused second registration ({})", host.name));
+                        }
+                    }
+                    _ => fail("C18: a type table does not answer for a registered type after a refused second registration".to_string()),
+                }
+            }};
+        }
+        for r in &regs {
+            let un = r["uninit"].as_bool().unwrap_or(false);
+            match r["tag"].as_str().unwrap_or("A") {
+                "A" => again!([u16; 3], un),
+                "B" => again!([u8; 5], un),
+                _ => again!([u32; 3], un),
+            }
+        }
     }
     fails
 }
